@@ -27,7 +27,7 @@ REQUIRED_FEATURES = ["selection_of_selection", "neg_col_step_twice", "state_is_f
                      "alias_chain", "assign_probe", "materialise_transition", "state_with_empty_row", "zero_row_state"]
 BOUNDS = {"quick": "8 base arrays (empty row first/middle/last/none/all, one row, zero rows), all chains of depth <= 2 over the derivation "
                    "alphabet (~85 row selectors, ~190 (rows, column-slice) pairs, 10 ufunc/array-function steps, materialise), "
-                   "~70 probes on every distinct state",
+                   "~70 probes on every distinct state; probes with the derived array as the non-dispatching operand, out-of-range refusals, float columns, method forms, ragged_slice; list-of-bools selectors",
           "thorough": "12 base arrays at depth 3 (depth-3 expansion over the index alphabet) and all of LV(3,3) at depth 2"}
 
 Q_BASES = [[2, 0, 3], [0, 2, 1], [1, 3, 0], [2, 1, 3], [0, 0], [3], [], [1, 0, 0, 2]]
